@@ -37,6 +37,7 @@ type opSpec struct {
 	X  uint32 `json:"x,omitempty"`  // exit code
 	CC bool   `json:"cc,omitempty"` // compile: close the CompiledModule afterwards
 	F  int    `json:"f,omitempty"`  // instantiate: 1 = mount a counting FS and open a file on it, 2 = that file's Close fails
+	P  int    `json:"p,omitempty"`  // where that file sits: 0 first free descriptor, 1-3 stdio slot 0-2, 4 several, 5/6 renumbered to 70/130
 	S  int    `json:"s,omitempty"`  // InstantiateWithConfig: start function behaviour (sReturn..sCallPeer), exit code X
 	N2 int    `json:"n2,omitempty"` // sCallPeer: name of the peer instance
 }
@@ -44,7 +45,7 @@ type opSpec struct {
 func (o opSpec) String() string {
 	switch {
 	case o.K.isInst() || o.K == kLookup:
-		return fmt.Sprintf("%s(%s%s)", kindShort[o.K], nameStr(o.N), lop{F: o.F, S: o.S, X: o.X, N2: o.N2}.mark())
+		return fmt.Sprintf("%s(%s%s)", kindShort[o.K], nameStr(o.N), lop{F: o.F, P: o.P, S: o.S, X: o.X, N2: o.N2}.mark())
 	case o.K == kClose || o.K == kIsClosed || o.K == kCtxClose || o.K == kCall:
 		return fmt.Sprintf("%s(h%d)", kindShort[o.K], o.H)
 	case o.K == kCloseX:
@@ -128,7 +129,7 @@ func genScript(r *core.Rng, engine int) *script {
 			// fault injection: this instance holds an open file; for half of them its Close fails.
 			// Only instances created before the clients start get one: opening a file on an
 			// instance that other goroutines may already be closing would be the harness's race.
-			o.F = 1 + r.Intn(2)
+			o.F, o.P = 1+r.Intn(2), r.Intn(len(placeName))
 			if r.Chance(1, 4) {
 				o.K = kInstBin
 			}
@@ -381,6 +382,7 @@ type rec struct {
 	stack     string
 	inst      *instRec
 	cfs       *countFS // fault injection: the FS whose file this instance holds open
+	lag       bool     // context-driven close: closed flag seen before the name was released
 }
 
 type finding struct {
@@ -477,7 +479,7 @@ func (h *hist) exec(client int, sp opSpec, hs *[]api.Module, bin []byte) (r rec)
 		}
 		*hs = append(*hs, m)
 		if r.cfs != nil {
-			if e := openOn(m); e != "" {
+			if e := openOn(m, sp.P, r.cfs); e != "" {
 				r.err, r.cfs = "harness could not open the file: "+e, nil
 			}
 		}
@@ -574,6 +576,15 @@ func (h *hist) exec(client int, sp opSpec, hs *[]api.Module, bin []byte) (r rec)
 		cancel()
 		_, err2 := nop.Call(bg) // one more call on the handle: must fail, must not notify again
 		closed := r.mod.IsClosed()
+		if nm := r.mod.Name(); closed && nm != "" && h.rt.Module(nm) == r.mod {
+			// wazero's context watcher goroutine has marked the module closed (that is what ended the
+			// call) but has not unregistered it yet: the two-step close, seen by a single client. Noted
+			// under its own signature; the operation is taken to last until the watcher is through.
+			r.lag = true
+			for i := 0; i < 200000 && h.rt.Module(nm) == r.mod; i++ {
+				runtime.Gosched()
+			}
+		}
 		r.ret = h.tick()
 		var ee *sys.ExitError
 		switch {
@@ -796,7 +807,7 @@ func (h *hist) finish(out *histOut, sc *script, recs []rec, hk *hookState) {
 		r := &recs[i]
 		o := lop{Client: r.client, Kind: r.kind, Name: r.name, ID: idOf(r.mod), Res: r.res, Call: r.call, Ret: r.ret, Err: r.err, X: r.spec.X}
 		if r.cfs != nil {
-			o.F = 1
+			o.F, o.P = 1, r.spec.P
 			if r.cfs.fail {
 				o.F = 2
 				failing[o.ID] = true
@@ -820,6 +831,12 @@ func (h *hist) finish(out *histOut, sc *script, recs []rec, hk *hookState) {
 		if r.res == rOtherErr {
 			out.ops["othererr:"+core.Trunc(r.err, 90)]++
 		}
+		if strings.HasPrefix(r.err, "harness could not open the file") {
+			out.ops["harness-open-failed"]++
+			out.add("harness:could-not-place-held-file", r.err, nil)
+		} else if r.cfs != nil {
+			out.ops["held-file-placement"+placeName[r.spec.P]]++
+		}
 		switch r.kind {
 		case kRtClose:
 			rtCodes[r.spec.X] = true
@@ -836,6 +853,10 @@ func (h *hist) finish(out *histOut, sc *script, recs []rec, hk *hookState) {
 				if r.spec.X%2 == 1 {
 					// a deadline that has already passed when the call begins still closes with the deadline code
 					x = sys.ExitCodeDeadlineExceeded
+				}
+				if r.lag {
+					out.ops["context-close-returned-before-name-release"]++
+					out.add("atomicity:module-close-steps-visible", fmt.Sprintf("context-driven close of m%d: the cut call returned its exit error and IsClosed() was true while Runtime.Module(name) still returned the module (the watcher sets the closed flag before it releases the name)", o.ID), nil)
 				}
 				if r.res == rOtherErr {
 					out.add("context-close:"+strings.SplitN(r.err, ":", 2)[0], fmt.Sprintf("context-driven close of m%d: %s", o.ID, r.err), nil)
@@ -1055,6 +1076,7 @@ type countFS struct {
 type countFile struct {
 	fs.File
 	name   string
+	slot   string // where in the descriptor table the harness put it
 	fail   bool
 	closes int32
 }
@@ -1066,7 +1088,13 @@ func newCountFS(fail bool) *countFS {
 // openOn opens the file "f" of the instance's first pre-open, the way a guest's
 // path_open would, from the harness. Only called while no other goroutine can
 // know the instance.
-func openOn(m api.Module) string {
+//
+// place says where the file ends up, the way a guest gets it there: 0 = lowest
+// free descriptor (above the pre-opens); 1-3 = in stdio slot 0-2 (fd_close of
+// the stdio stream, then path_open takes the lowest free descriptor: the classic
+// redirection); 4 = several files, in stdio slots and above; 5, 6 = moved to
+// descriptor 70 / 130 with fd_renumber.
+func openOn(m api.Module, place int, cfs *countFS) string {
 	mi, ok := m.(*wasm.ModuleInstance)
 	if !ok || mi.Sys == nil {
 		return "not a guest instance"
@@ -1076,10 +1104,64 @@ func openOn(m api.Module) string {
 	if !ok || pre.FS == nil {
 		return "no pre-open"
 	}
-	if _, errno := fsc.OpenFile(pre.FS, "f", experimentalsys.O_RDONLY, 0); errno != 0 {
-		return errno.Error()
+	open := func(class string, want int32) (int32, string) {
+		cfs.mu.Lock()
+		before := len(cfs.files)
+		cfs.mu.Unlock()
+		fd, errno := fsc.OpenFile(pre.FS, "f", experimentalsys.O_RDONLY, 0)
+		if errno != 0 {
+			return 0, errno.Error()
+		}
+		if want >= 0 && fd != want {
+			return 0, fmt.Sprintf("file landed at descriptor %d, not %d", fd, want)
+		}
+		cfs.mu.Lock()
+		for _, f := range cfs.files[before:] {
+			f.slot = class
+		}
+		cfs.mu.Unlock()
+		return fd, ""
 	}
-	return ""
+	inStdio := func(slot int32) string {
+		if errno := fsc.CloseFile(slot); errno != 0 {
+			return "closing the stdio stream: " + errno.Error()
+		}
+		_, e := open("stdio-slot", slot)
+		return e
+	}
+	high := func(to int32) string {
+		fd, e := open("high-fd", -1)
+		if e != "" {
+			return e
+		}
+		if errno := fsc.Renumber(fd, to); errno != 0 {
+			return "renumber: " + errno.Error()
+		}
+		return ""
+	}
+	switch place {
+	case 1, 2, 3:
+		return inStdio(int32(place - 1))
+	case 4:
+		for _, step := range []func() string{
+			func() string { return inStdio(1) },
+			func() string { _, e := open("above-preopens", -1); return e },
+			func() string { return inStdio(0) },
+			func() string { _, e := open("above-preopens", -1); return e },
+			func() string { return high(70) },
+		} {
+			if e := step(); e != "" {
+				return e
+			}
+		}
+		return ""
+	case 5:
+		return high(70)
+	case 6:
+		return high(130)
+	}
+	_, e := open("above-preopens", -1)
+	return e
 }
 
 func (c *countFS) Open(name string) (fs.File, error) {
@@ -1110,11 +1192,18 @@ func (c *countFS) check(out *histOut, witness func() any) {
 		out.ops["fs-files-handed-out"]++
 		switch n := atomic.LoadInt32(&f.closes); {
 		case n == 0:
-			out.add("fs-close:never-closed", fmt.Sprintf("file %q opened through the mounted FS was never closed although the runtime is closed", f.name), witness())
+			out.add("fs-close:never-closed"+suffix(f.slot), fmt.Sprintf("file %q opened through the mounted FS (%s) was never closed although the runtime is closed", f.name, f.slot), witness())
 		case n > 1:
-			out.add("fs-close:closed-more-than-once", fmt.Sprintf("file %q opened through the mounted FS was closed %d times", f.name, n), witness())
+			out.add("fs-close:closed-more-than-once"+suffix(f.slot), fmt.Sprintf("file %q opened through the mounted FS (%s) was closed %d times", f.name, f.slot, n), witness())
 		}
 	}
+}
+
+func suffix(slot string) string {
+	if slot == "" {
+		return "" // opened by a guest's own path_open (WASI variant of the sequential phase)
+	}
+	return ":" + slot
 }
 
 var _ = wasi_snapshot_preview1.ModuleName
